@@ -159,9 +159,52 @@ Section Element.
     destruct j as [|[|[|j]]]; try lia; destruct k as [|[|[|k]]]; try lia; cbn; ra_simpl; lra.
   Qed.
 
+  (* no edge of the element carries a mixed (BdryFormat 2) boundary condition; prescribed-A, periodic and
+     unmarked edges do not enter the element matrices *)
+  Definition no_mixed_edge (el : elemR) : Prop :=
+    forall j, (j < 3)%nat ->
+      match tri_get (me el) j with
+      | Some s => mlfmt (nth s (mlines P) (dmline RA)) <> 2%nat
+      | None => True end.
+
+  Lemma no_mixed_edge_none el : me el = (None, None, None) -> no_mixed_edge el.
+  Proof. intros He j Hj. rewrite He. destruct j as [|[|[|j]]]; try lia; exact I. Qed.
+
   Lemma mixed_none g el acc :
-    me el = (None, None, None) -> fold_left (mixed_step RA P g el) [0%nat; 1%nat; 2%nat] acc = acc.
-  Proof. intros He. unfold mixed_step. cbn [fold_left]. rewrite He. reflexivity. Qed.
+    no_mixed_edge el -> fold_left (mixed_step RA P g el) [0%nat; 1%nat; 2%nat] acc = acc.
+  Proof.
+    intros He. unfold mixed_step. cbn [fold_left].
+    pose proof (He 0%nat ltac:(lia)) as H0. pose proof (He 1%nat ltac:(lia)) as H1. pose proof (He 2%nat ltac:(lia)) as H2.
+    destruct (tri_get (me el) 0) as [s0|]; [apply Nat.eqb_neq in H0; rewrite H0|];
+      (destruct (tri_get (me el) 1) as [s1|]; [apply Nat.eqb_neq in H1; rewrite H1|]);
+      (destruct (tri_get (me el) 2) as [s2|]; [apply Nat.eqb_neq in H2; rewrite H2|]); reflexivity.
+  Qed.
+
+  (* one mixed-boundary edge j -> j+1:  Me += K [2 1; 1 2] on the edge's two nodes with
+     K = -0.0001*c*c0*l/6 (the P1 edge mass matrix l/6 [2 1; 1 2] times c0),  be += 0.0001*c1*l/2 *)
+  Definition on_edge (j a : nat) : bool := Nat.eqb a j || Nat.eqb a (nxt j).
+  Theorem mixed_step_adds g el Me be j s :
+    tri_get (me el) j = Some s -> mlfmt (nth s (mlines P) (dmline RA)) = 2%nat ->
+    (j < 3)%nat -> length Me = 9%nat -> length be = 3%nat ->
+    let lp := nth s (mlines P) (dmline RA) in
+    let K := - e4 RA * c4pi RA * lc0re lp * vgetR (gl g) j / 6 in
+    let r := mixed_step RA P g el (Me, be) j in
+    (forall a b, (a < 3)%nat -> (b < 3)%nat ->
+       m3get RA (fst r) a b = m3get RA Me a b
+         + (if on_edge j a && on_edge j b then (if Nat.eqb a b then 2 * K else K) else 0)) /\
+    (forall a, (a < 3)%nat ->
+       vgetR (snd r) a = vgetR be a + (if on_edge j a then lc1re lp * vgetR (gl g) j / 2 * e4 RA else 0)).
+  Proof.
+    intros Hs Hf Hj HL HB lp K r. subst lp. unfold r, mixed_step. rewrite Hs. rewrite Hf. cbn [Nat.eqb].
+    destruct (len9_explicit Me HL) as (m0 & m1 & m2 & m3 & m4 & m5 & m6 & m7 & m8 & ->).
+    destruct be as [|b0 [|b1 [|b2 [|]]]]; try discriminate HB.
+    unfold K. split.
+    - intros a b Ha Hb. unfold on_edge.
+      destruct j as [|[|[|j]]]; try lia; destruct a as [|[|[|a]]]; try lia; destruct b as [|[|[|b]]]; try lia;
+        cbn; ra_simpl; lra.
+    - intros a Ha. unfold on_edge.
+      destruct j as [|[|[|j]]]; try lia; destruct a as [|[|[|a]]]; try lia; cbn; ra_simpl; lra.
+  Qed.
 
   (* the magnet edge term  K = 0.0001*H_c*(cos t*(x_k-x_j) + sin t*(y_k-y_j))/2  of edge j -> j+1 *)
   Definition Kmag (el : elemR) (j : nat) : R :=
@@ -171,7 +214,7 @@ Section Element.
   Definition prv (j : nat) : nat := match j with 0%nat => 2%nat | 1%nat => 0%nat | _ => 1%nat end.
 
   Lemma melem_matrices_noedge el :
-    me el = (None, None, None) ->
+    no_mixed_edge el ->
     let r := melem_matrices RA P res el in
     let g := mel_geom RA P el in
     let blk := nth (mblk el) (mblocks P) (dmblock RA) in
@@ -211,7 +254,7 @@ Section Element.
      the effective mu_x (mu1) goes with the y-derivatives (q q), the effective mu_y (mu2) with the
      x-derivatives (p p) *)
   Theorem Mel_is_curlcurl el j k :
-    me el = (None, None, None) -> (j < 3)%nat -> (k < 3)%nat ->
+    no_mixed_edge el -> (j < 3)%nat -> (k < 3)%nat ->
     let g := mel_geom RA P el in
     let mu := el_mu RA (nth (mblk el) (mblocks P) (dmblock RA)) in
     ga g <> 0 -> fst mu <> 0 -> snd mu <> 0 ->
@@ -225,7 +268,7 @@ Section Element.
   (* (c) right-hand side: be_j = -( (J + t) a/3 + 0.0001 * integral of Hc x grad(phi_j) ), with
      Hc = H_c (cos, sin); L.b[n_j] -= be_j puts  + J a/3 + curl(Hc) load  on the right-hand side *)
   Theorem current_and_magnet_rhs el j :
-    me el = (None, None, None) -> (j < 3)%nat ->
+    no_mixed_edge el -> (j < 3)%nat ->
     let g := mel_geom RA P el in
     let blk := nth (mblk el) (mblocks P) (dmblock RA) in
     ga g <> 0 ->
@@ -242,7 +285,7 @@ Section Element.
 
   (* pure source current: no magnet *)
   Corollary current_rhs el j :
-    me el = (None, None, None) -> (j < 3)%nat ->
+    no_mixed_edge el -> (j < 3)%nat ->
     let blk := nth (mblk el) (mblocks P) (dmblock RA) in
     bHc blk = 0 ->
     vgetR (snd (fst (melem_matrices RA P res el))) j = - (bJre blk + circ_t RA P res el) * ga (mel_geom RA P el) / 3.
@@ -265,7 +308,7 @@ Section Element.
 
   (* shape of the element matrices (what the loop theorem's local residual uses) *)
   Lemma melem_matrices_sym el :
-    me el = (None, None, None) -> forall j k, (j < 3)%nat -> (k < 3)%nat ->
+    no_mixed_edge el -> forall j k, (j < 3)%nat -> (k < 3)%nat ->
     m3get RA (fst (fst (melem_matrices RA P res el))) j k = m3get RA (fst (fst (melem_matrices RA P res el))) k j.
   Proof.
     intros He j k Hj Hk. destruct (melem_matrices_noedge el He) as (_ & HM & _).
@@ -297,3 +340,398 @@ Section Lamination.
     - intros H. destruct (bLamType b) as [|[|[|n]]]; try lia. reflexivity.
   Qed.
 End Lamination.
+
+(* ------------------------------------------------------------------------------------------ *)
+Lemma e2_val : e2 RA = 1 / 100.
+Proof. unfold e2, adec. cbn. reflexivity. Qed.
+Lemma e4_val : e4 RA = 1 / 10000.
+Proof. unfold e4, adec. cbn. reflexivity. Qed.
+
+Section Circuits.
+  Variable P : probR.
+
+  Definition in_circ (el : elemR) (i : nat) : bool :=
+    match lcirc (nth (mlbl el) (mlabels P) dmlabel) with Some c => Nat.eqb c i | None => false end.
+  Definition el_area (el : elemR) : R := ga (mel_geom RA P el).
+  Definition el_blk (el : elemR) : mblock (F:=R) := nth (mblk el) (mblocks P) (dmblock RA).
+  Definition el_wound (el : elemR) : bool := is_wound RA P (nth (mlbl el) (mlabels P) dmlabel).
+
+  (* sum over the elements of circuit i *)
+  Definition csum (f : elemR -> R) (i : nat) (els : list elemR) : R :=
+    lsum (fun el => if in_circ el i then f el else 0) els.
+
+  Lemma csum_ext f g i els : (forall el, in_circ el i = true -> f el = g el) -> csum f i els = csum g i els.
+  Proof.
+    intros H. unfold csum. induction els as [|el els IH]; [reflexivity|]. cbn [lsum]. rewrite IH.
+    destruct (in_circ el i) eqn:E; [rewrite (H el E)|]; reflexivity.
+  Qed.
+  Lemma csum_plus f g i els : csum (fun el => f el + g el) i els = csum f i els + csum g i els.
+  Proof. unfold csum. induction els as [|el els IH]; cbn [lsum]; [lra|]. rewrite IH. destruct (in_circ el i); lra. Qed.
+  Lemma csum_scal c f i els : csum (fun el => c * f el) i els = c * csum f i els.
+  Proof. unfold csum. induction els as [|el els IH]; cbn [lsum]; [lra|]. rewrite IH. destruct (in_circ el i); lra. Qed.
+
+  (* CircInt1, CircInt2, CircInt3 *)
+  Definition I1 (i : nat) : R := csum el_area i (melems P).
+  Definition I2 (i : nat) : R := csum (fun el => el_area el * (if el_wound el then 0 else bCduct (el_blk el))) i (melems P).
+  Definition I3 (i : nat) : R := csum (fun el => bJre (el_blk el) * el_area el * 100) i (melems P).
+  (* the conductivity integral WITHOUT the zeroing for wound regions *)
+  Definition I2full (i : nat) : R := csum (fun el => el_area el * bCduct (el_blk el)) i (melems P).
+
+  Lemma circ_step_spec (c1 c2 c3 : vecT R) el i :
+    (i < length c1)%nat -> (i < length c2)%nat -> (i < length c3)%nat ->
+    let r := circ_step RA P (c1, c2, c3) el in
+    (length (fst (fst r)) = length c1 /\ length (snd (fst r)) = length c2 /\ length (snd r) = length c3) /\
+    vgetR (fst (fst r)) i = vgetR c1 i + (if in_circ el i then el_area el else 0) /\
+    vgetR (snd (fst r)) i = vgetR c2 i + (if in_circ el i then el_area el * (if el_wound el then 0 else bCduct (el_blk el)) else 0) /\
+    vgetR (snd r) i = vgetR c3 i + (if in_circ el i then bJre (el_blk el) * el_area el * 100 else 0).
+  Proof.
+    intros H1 H2 H3. unfold circ_step, in_circ.
+    fold (el_wound el). fold (el_blk el). fold (el_area el).
+    destruct (lcirc (nth (mlbl el) (mlabels P) dmlabel)) as [ic|]; cbn [fst snd].
+    - rewrite !vset_length. split; [auto|].
+      destruct (Nat.eqb_spec ic i) as [->|Hne].
+      + rewrite !(vget_vset_same RA) by auto. ra_simpl. destruct (el_wound el); repeat split; lra.
+      + rewrite !(vget_vset_other RA) by auto. repeat split; lra.
+    - split; [auto|]. repeat split; lra.
+  Qed.
+
+  Lemma circ_fold_spec els : forall (c1 c2 c3 : vecT R) i,
+    (i < length c1)%nat -> (i < length c2)%nat -> (i < length c3)%nat ->
+    let r := fold_left (circ_step RA P) els (c1, c2, c3) in
+    vgetR (fst (fst r)) i = vgetR c1 i + csum el_area i els /\
+    vgetR (snd (fst r)) i = vgetR c2 i + csum (fun el => el_area el * (if el_wound el then 0 else bCduct (el_blk el))) i els /\
+    vgetR (snd r) i = vgetR c3 i + csum (fun el => bJre (el_blk el) * el_area el * 100) i els.
+  Proof.
+    induction els as [|el els IH]; intros c1 c2 c3 i H1 H2 H3.
+    - cbv zeta. cbn [fold_left fst snd]. unfold csum. cbn [lsum]. repeat split; lra.
+    - cbn [fold_left].
+      destruct (circ_step_spec c1 c2 c3 el i H1 H2 H3) as ((L1 & L2 & L3) & S1 & S2 & S3).
+      destruct (circ_step RA P (c1, c2, c3) el) as [[d1 d2] d3]. cbn [fst snd] in *.
+      destruct (IH d1 d2 d3 i) as (G1 & G2 & G3); try lia.
+      cbv zeta in *. rewrite G1, G2, G3, S1, S2, S3. unfold csum. cbn [lsum]. repeat split; lra.
+  Qed.
+
+  Lemma vget_repeat0 n i : vgetR (repeat 0 n) i = 0.
+  Proof. unfold vget. revert i. induction n; intros [|i]; cbn; auto. Qed.
+
+  Lemma circ_ints_spec i : (i < length (mcircs P))%nat ->
+    let r := circ_ints RA P (length (mcircs P)) in
+    vgetR (fst (fst r)) i = I1 i /\ vgetR (snd (fst r)) i = I2 i /\ vgetR (snd r) i = I3 i.
+  Proof.
+    intros Hi r. unfold r, circ_ints.
+    destruct (circ_fold_spec (melems P) (repeat 0 (length (mcircs P))) (repeat 0 (length (mcircs P)))
+                (repeat 0 (length (mcircs P))) i) as (G1 & G2 & G3); try (rewrite repeat_length; exact Hi).
+    ra_simpl. rewrite G1, G2, G3, !vget_repeat0. unfold I1, I2, I3. repeat split; lra.
+  Qed.
+
+  Lemma nth_map_combine_seq {T U} (f : nat * T -> U) (l : list T) (d : T) (du : U) i :
+    (i < length l)%nat -> nth i (map f (combine (seq 0 (length l)) l)) du = f (i, nth i l d).
+  Proof.
+    intros Hi.
+    assert (G : forall (l : list T) a i, (i < length l)%nat ->
+              nth i (map f (combine (seq a (length l)) l)) du = f ((a + i)%nat, nth i l d)).
+    { clear. induction l as [|x l IH]; intros a i Hi; [cbn in Hi; lia|].
+      destruct i as [|i]; cbn [length seq combine map nth].
+      - rewrite Nat.add_0_r. reflexivity.
+      - rewrite IH by (cbn in Hi; lia). f_equal. f_equal. lia. }
+    apply (G l 0%nat i Hi).
+  Qed.
+
+  Lemma circ_results_nth i : (i < length (mcircs P))%nat ->
+    nth i (circ_results RA P) (dres RA) = circ_case RA (nth i (mcircs P) (dmcirc RA)) (I1 i) (I2 i) (I3 i).
+  Proof.
+    intros Hi. unfold circ_results.
+    destruct (circ_ints_spec i Hi) as (G1 & G2 & G3).
+    destruct (circ_ints RA P (length (mcircs P))) as [[c1 c2] c3]. cbn [fst snd] in *.
+    rewrite (nth_map_combine_seq _ (mcircs P) (dmcirc RA)) by exact Hi. cbn [fst snd].
+    rewrite G1, G2, G3. reflexivity.
+  Qed.
+
+  (* the circuit part of the applied current density of an element of circuit i *)
+  Lemma circ_t_in res el i : in_circ el i = true ->
+    circ_t RA P res el =
+      (let '(case, J, dV) := nth i res (dres RA) in
+       if Nat.eqb case 0 then - dV * bCduct (el_blk el) else if Nat.eqb case 1 then J else 0).
+  Proof.
+    unfold in_circ, circ_t. destruct (lcirc (nth (mlbl el) (mlabels P) dmlabel)) as [c|]; [|discriminate].
+    intros E. apply Nat.eqb_eq in E. subst c.
+    destruct (nth i res (dres RA)) as [[case J] dV]. fold (el_blk el).
+    destruct (Nat.eqb case 0); ra_simpl; reflexivity.
+  Qed.
+
+  (* (e) Case 1 — a circuit without (effective) conductivity carrying a prescribed current: the
+     flat current density J makes the total of the applied density over the circuit's elements
+     equal to the prescribed Amps (a in cm^2, J in MA/m^2:  J*a*100 is in Amps) *)
+  Theorem circuit_current_reproduced i :
+    (i < length (mcircs P))%nat ->
+    let c := nth i (mcircs P) (dmcirc RA) in
+    cType c = 0%nat -> I2 i = 0 -> I1 i <> 0 ->
+    let res := circ_results RA P in
+    fst (fst (nth i res (dres RA))) = 1%nat /\
+    csum (fun el => (bJre (el_blk el) + circ_t RA P res el) * el_area el * 100) i (melems P) = cAre c.
+  Proof.
+    intros Hi c Ht H2 H1 res.
+    assert (E : nth i res (dres RA) = (1%nat, e2 RA * (cAre c - I3 i) / I1 i, 0)).
+    { unfold res. rewrite circ_results_nth by exact Hi. fold c. unfold circ_case. rewrite Ht. cbn [Nat.eqb].
+      ra_simpl. rewrite H2. replace (Reqb 0 0) with true by (symmetry; apply Reqb_true; reflexivity).
+      replace (Reqb (I1 i) 0) with false by (symmetry; apply Reqb_false; exact H1). reflexivity. }
+    split; [rewrite E; reflexivity|].
+    rewrite (csum_ext _ (fun el => bJre (el_blk el) * el_area el * 100
+                                   + (e2 RA * (cAre c - I3 i) / I1 i * 100) * el_area el)).
+    - match goal with |- csum (fun el => _ + ?K * _) _ _ = _ =>
+        assert (Q : csum (fun el => bJre (el_blk el) * el_area el * 100 + K * el_area el) i (melems P) = I3 i + K * I1 i)
+          by (rewrite csum_plus, csum_scal; reflexivity); rewrite Q end.
+      rewrite e2_val. field. exact H1.
+    - intros el Hin. rewrite (circ_t_in res el i Hin), E. cbn [Nat.eqb]. ring.
+  Qed.
+
+  (* Case 0 — conducting regions in parallel: a voltage gradient dV is applied.  CircInt2 leaves
+     out the conductivity of wound regions, the right-hand side does not (static2d.cpp:497), so
+     the total applied current is  I3 + (Amps - I3) * I2full / I2  *)
+  Theorem circuit_current_case0 i :
+    (i < length (mcircs P))%nat ->
+    let c := nth i (mcircs P) (dmcirc RA) in
+    cType c = 0%nat -> I2 i <> 0 ->
+    let res := circ_results RA P in
+    fst (fst (nth i res (dres RA))) = 0%nat /\
+    csum (fun el => (bJre (el_blk el) + circ_t RA P res el) * el_area el * 100) i (melems P)
+      = I3 i + (cAre c - I3 i) * I2full i / I2 i.
+  Proof.
+    intros Hi c Ht H2 res.
+    assert (E : nth i res (dres RA) = (0%nat, 0, - e2 RA * (cAre c - I3 i) / I2 i)).
+    { unfold res. rewrite circ_results_nth by exact Hi. fold c. unfold circ_case. rewrite Ht. cbn [Nat.eqb].
+      ra_simpl. replace (Reqb (I2 i) 0) with false by (symmetry; apply Reqb_false; exact H2). reflexivity. }
+    split; [rewrite E; reflexivity|].
+    rewrite (csum_ext _ (fun el => bJre (el_blk el) * el_area el * 100
+                                   + (e2 RA * (cAre c - I3 i) / I2 i * 100) * (el_area el * bCduct (el_blk el)))).
+    - match goal with |- csum (fun el => _ + ?K * _) _ _ = _ =>
+        assert (Q : csum (fun el => bJre (el_blk el) * el_area el * 100 + K * (el_area el * bCduct (el_blk el))) i (melems P)
+                    = I3 i + K * I2full i)
+          by (rewrite csum_plus, csum_scal; reflexivity); rewrite Q end.
+      rewrite e2_val. field. exact H2.
+    - intros el Hin. rewrite (circ_t_in res el i Hin), E. cbn [Nat.eqb]. field. exact H2.
+  Qed.
+
+  (* ... hence the prescribed current when no wound region of the circuit is conducting *)
+  Corollary circuit_current_case0_reproduced i :
+    (i < length (mcircs P))%nat ->
+    let c := nth i (mcircs P) (dmcirc RA) in
+    cType c = 0%nat -> I2 i <> 0 ->
+    (forall el, In el (melems P) -> in_circ el i = true -> el_wound el = true -> bCduct (el_blk el) = 0) ->
+    csum (fun el => (bJre (el_blk el) + circ_t RA P (circ_results RA P) el) * el_area el * 100) i (melems P) = cAre c.
+  Proof.
+    intros Hi c Ht H2 Hw.
+    destruct (circuit_current_case0 i Hi Ht H2) as [_ G]. fold c in G. rewrite G.
+    assert (EF : I2full i = I2 i).
+    { unfold I2full, I2, csum. revert Hw. generalize (melems P). intros els Hw.
+      induction els as [|el els IH]; [reflexivity|]. cbn [lsum].
+      rewrite IH by (intros; apply Hw; auto; right; auto).
+      destruct (in_circ el i) eqn:E; [|reflexivity].
+      destruct (el_wound el) eqn:W; [|reflexivity].
+      rewrite (Hw el (or_introl eq_refl) E W). lra. }
+    rewrite EF. field. exact H2.
+  Qed.
+
+  (* every circuit result is Case 0 or Case 1 *)
+  Lemma circ_case_01 c i1 i2 i3 : (fst (fst (circ_case RA c i1 i2 i3)) <= 1)%nat.
+  Proof. unfold circ_case. destruct (Nat.eqb (cType c) 0); [destruct (aeqb RA i2 (azero RA))|]; cbn; lia. Qed.
+
+  Lemma circ_results_01 k : (fst (fst (nth k (circ_results RA P) (dres RA))) <= 1)%nat.
+  Proof.
+    destruct (Nat.lt_ge_cases k (length (circ_results RA P))) as [Hk|Hk].
+    - unfold circ_results in *. destruct (circ_ints RA P (length (mcircs P))) as [[c1 c2] c3].
+      rewrite map_length, combine_length, seq_length, Nat.min_id in Hk.
+      rewrite (nth_map_combine_seq _ (mcircs P) (dmcirc RA)) by exact Hk. apply circ_case_01.
+    - rewrite nth_overflow by exact Hk. cbn. lia.
+  Qed.
+
+  (* what a reader of the solution file reconstructs from a label's line  (flag, value): the added
+     current density is  value  for flag 1 and  -value*sigma  for flag 0 *)
+  Definition applied_from_written (w : nat * R) (sigma : R) : R :=
+    if Nat.eqb (fst w) 0 then - snd w * sigma else snd w.
+
+  Theorem written_circuit_data_matches_applied el :
+    let res := circ_results RA P in
+    circ_t RA P res el
+      = applied_from_written (written_label RA res (nth (mlbl el) (mlabels P) dmlabel)) (bCduct (el_blk el)).
+  Proof.
+    intros res. unfold circ_t, written_label, applied_from_written.
+    destruct (lcirc (nth (mlbl el) (mlabels P) dmlabel)) as [k|]; [|reflexivity].
+    pose proof (circ_results_01 k) as H01. fold res in H01.
+    destruct (nth k res (dres RA)) as [[case J] dV]. cbn [fst snd] in *. fold (el_blk el).
+    destruct case as [|[|case]]; [| |lia]; cbn [Nat.eqb fst snd]; ra_simpl; reflexivity.
+  Qed.
+  (* the same line as the postprocessor reads it (fpproc.cpp:3630-3650): a voltage gradient drives no bulk
+     current in a wound region *)
+  Definition applied_from_written_pp (w : nat * R) (sigma : R) (wound : bool) : R :=
+    if Nat.eqb (fst w) 0 then (if wound then 0 else - snd w * sigma) else snd w.
+
+  Theorem written_matches_postprocessor el :
+    (el_wound el = false \/ bCduct (el_blk el) = 0) ->
+    let res := circ_results RA P in
+    circ_t RA P res el
+      = applied_from_written_pp (written_label RA res (nth (mlbl el) (mlabels P) dmlabel)) (bCduct (el_blk el)) (el_wound el).
+  Proof.
+    intros H res. unfold res. rewrite written_circuit_data_matches_applied.
+    unfold applied_from_written, applied_from_written_pp.
+    destruct (Nat.eqb (fst _) 0); [|reflexivity].
+    destruct H as [-> | ->]; [reflexivity|]. destruct (el_wound el); ring.
+  Qed.
+
+  Lemma circ_result_case0 i :
+    (i < length (mcircs P))%nat -> cType (nth i (mcircs P) (dmcirc RA)) = 0%nat -> I2 i <> 0 ->
+    nth i (circ_results RA P) (dres RA) = (0%nat, 0, - e2 RA * (cAre (nth i (mcircs P) (dmcirc RA)) - I3 i) / I2 i).
+  Proof.
+    intros Hi Ht H2. rewrite circ_results_nth by exact Hi. unfold circ_case. rewrite Ht. cbn [Nat.eqb].
+    ra_simpl. replace (Reqb (I2 i) 0) with false by (symmetry; apply Reqb_false; exact H2). reflexivity.
+  Qed.
+End Circuits.
+
+(* the wound-and-solid parallel circuit: the faithful model does not reproduce the prescribed current *)
+Section Refuted.
+  Definition Pw : probR :=
+    mkMProb 2
+      [mkMNode 0 0 None; mkMNode 1 0 None; mkMNode 0 1 None; mkMNode 1 1 None]
+      [mkMElem (0, 1, 2)%nat (None, None, None) 0 0 1 0; mkMElem (1, 3, 2)%nat (None, None, None) 0 1 1 0]
+      [mkMBlock 1 1 0 0 0 1 0 0 0 0 1] [] []
+      [mkMCirc 0 1 0 0 0]
+      [mkMLabel 0 (Some 0%nat) 2; mkMLabel 0 (Some 0%nat) 1] [].
+
+  Theorem circuit_current_case0_refuted :
+    exists (P : probR) (i : nat),
+      (i < length (mcircs P))%nat /\ cType (nth i (mcircs P) (dmcirc RA)) = 0%nat /\ I2 P i <> 0 /\
+      csum P (fun el => (bJre (el_blk P el) + circ_t RA P (circ_results RA P) el) * el_area P el * 100) i (melems P)
+        <> cAre (nth i (mcircs P) (dmcirc RA)).
+  Proof.
+    exists Pw, 0%nat.
+    assert (H2 : I2 Pw 0 = 1 / 2).
+    { unfold I2, csum, in_circ, el_wound, el_blk, el_area, is_wound, mel_geom, geom. cbn. ra_simpl. lra. }
+    assert (H2f : I2full Pw 0 = 1).
+    { unfold I2full, csum, in_circ, el_blk, el_area, mel_geom, geom. cbn. ra_simpl. lra. }
+    assert (H3 : I3 Pw 0 = 0).
+    { unfold I3, csum, in_circ, el_blk, el_area, mel_geom, geom. cbn. ra_simpl. lra. }
+    assert (Hi : (0 < length (mcircs Pw))%nat) by (cbn; lia).
+    assert (Hn : I2 Pw 0 <> 0) by (rewrite H2; lra).
+    split; [exact Hi|]. split; [reflexivity|]. split; [exact Hn|].
+    destruct (circuit_current_case0 Pw 0 Hi eq_refl Hn) as [_ G]. rewrite G, H2, H2f, H3. cbn. lra.
+  Qed.
+  (* the wound element of that mesh gets 0.02 MA/m^2 from the voltage gradient, the postprocessor's reading
+     of the written line says 0 *)
+  Theorem written_matches_postprocessor_refuted :
+    exists (P : probR) (el : elemR), In el (melems P) /\
+      circ_t RA P (circ_results RA P) el
+        <> applied_from_written_pp (written_label RA (circ_results RA P) (nth (mlbl el) (mlabels P) dmlabel))
+                                   (bCduct (el_blk P el)) (el_wound P el).
+  Proof.
+    exists Pw, (mkMElem (0, 1, 2)%nat (None, None, None) 0 0 1 0). split; [left; reflexivity|].
+    assert (H2 : I2 Pw 0 = 1 / 2).
+    { unfold I2, csum, in_circ, el_wound, el_blk, el_area, is_wound, mel_geom, geom. cbn. ra_simpl. lra. }
+    assert (H3 : I3 Pw 0 = 0).
+    { unfold I3, csum, in_circ, el_blk, el_area, mel_geom, geom. cbn. ra_simpl. lra. }
+    assert (E : nth 0 (circ_results RA Pw) (dres RA) = (0%nat, 0, - e2 RA * (1 - I3 Pw 0) / I2 Pw 0)).
+    { apply (circ_result_case0 Pw 0); [cbn; lia|reflexivity|rewrite H2; lra]. }
+    unfold circ_t, written_label, applied_from_written_pp, el_wound, el_blk, is_wound. cbn [mlbl mlabels Pw nth lcirc mblk mblocks].
+    rewrite E. cbn [Nat.eqb fst snd lturns lblk bLamType bCduct Z.abs Z.ltb Z.compare Pos.compare Pos.compare_cont orb Nat.ltb Nat.leb].
+    rewrite H2, H3, e2_val. ra_simpl. lra.
+  Qed.
+End Refuted.
+
+(* ------------------------------------------------------------------------------------------ *)
+Section Prescribed.
+  Lemma c4pi_pos : c4pi RA > 0.
+  Proof. unfold c4pi. ra_simpl. assert (H := PI_RGT_0). cbn. lra. Qed.
+
+  Lemma vget_written V i : vgetR (written_A RA V) i = vgetR V i * c4pi RA.
+  Proof.
+    unfold written_A, vget. ra_simpl. replace 0 with (0 * c4pi RA) at 1 by ring.
+    apply (map_nth (fun v => v * c4pi RA)).
+  Qed.
+
+  (* (f) L.SetValue(i, a/c): in every solution of the constrained system the potential written for
+     node i is the prescribed a, and all other equations are the unconstrained ones *)
+  Theorem setvalue_prescribes (L : lin (F:=R)) i a V :
+    mat_wf (lM L) -> ln L = length (lM L) -> length (lb L) = length (lM L) ->
+    (i < length (lM L))%nat -> sv_covered L i -> mgetR (lM L) i i <> 0 ->
+    let L' := setvalue RA L i (a / c4pi RA) in
+    (forall k, (k < length (lM L))%nat -> Ax (lM L') V k = vgetR (lb L') k) ->
+    vgetR (written_A RA V) i = a /\
+    forall k, (k < length (lM L))%nat -> k <> i -> Ax (lM L) V k = vgetR (lb L) k.
+  Proof.
+    intros Hwf Hn Hb Hi Hc Hd L' Hs.
+    destruct (proj1 (setvalue_equiv L i (a / c4pi RA) V Hwf Hn Hb Hi Hc Hd) Hs) as [Hv Hr].
+    split; [|exact Hr]. rewrite vget_written, Hv. field. pose proof c4pi_pos. lra.
+  Qed.
+
+  (* the position- and phase-dependent value of a BdryFormat-0 boundary: (A0 + A1 x + A2 y) cos(phi),
+     x, y in the problem's length unit *)
+  Theorem seg_value_formula (P : probR) lp nd :
+    let u := nth (unit_idx P) (munits RA) 1 in
+    seg_value RA P lp nd = (lA0 lp + mx nd / u * lA1 lp + my nd / u * lA2 lp) * lcosphi lp.
+  Proof. reflexivity. Qed.
+End Prescribed.
+
+(* ------------------------------------------------------------------------------------------ *)
+Section Galerkin.
+  Variables (P : probR) (res : list (nat * R * R)).
+
+  (* the local Galerkin equation of curl(nu curl A) = J + curl(Hc) for local node a of an element, in the
+     solver's units (V = A/c, lengths in cm): stiffness row times the nodal values minus the load *)
+  Definition galerkin_local (el : elemR) (U : vecT R) (a : nat) : R :=
+    let g := mel_geom RA P el in
+    let blk := nth (mblk el) (mblocks P) (dmblock RA) in
+    let mu := el_mu RA blk in
+    curlcurl_K (1 / fst mu) (1 / snd mu) g a 0 * vgetR U (tri_get (mp el) 0)
+    + curlcurl_K (1 / fst mu) (1 / snd mu) g a 1 * vgetR U (tri_get (mp el) 1)
+    + curlcurl_K (1 / fst mu) (1 / snd mu) g a 2 * vgetR U (tri_get (mp el) 2)
+    - ((bJre blk + circ_t RA P res el) * ga g / 3
+       + e4 RA * (ga g * (bHc blk * mcos el * dphidy g a - bHc blk * msin el * dphidx g a))).
+
+  Definition el_regular (el : elemR) : Prop :=
+    no_mixed_edge P el /\ ga (mel_geom RA P el) <> 0 /\
+    fst (el_mu RA (nth (mblk el) (mblocks P) (dmblock RA))) <> 0 /\
+    snd (el_mu RA (nth (mblk el) (mblocks P) (dmblock RA))) <> 0.
+
+  Lemma curlcurl_K_sym nx ny g j k : curlcurl_K nx ny g j k = curlcurl_K nx ny g k j.
+  Proof. unfold curlcurl_K. ring. Qed.
+
+  Lemma local_resid_is_galerkin el U a : el_regular el -> (a < 3)%nat ->
+    let r := melem_matrices RA P res el in
+    local_resid (fst (fst r)) (snd (fst r)) (mp el) U a = - galerkin_local el U a.
+  Proof.
+    intros (He & Ha & H1 & H2) Hlt r. unfold local_resid, usym, galerkin_local.
+    pose proof (fun j k Hj Hk => Mel_is_curlcurl P res el j k He Hj Hk Ha H1 H2) as HM. cbv zeta in HM.
+    pose proof (current_and_magnet_rhs P res el a He Hlt Ha) as HB. cbv zeta in HB.
+    unfold r. rewrite HB.
+    destruct a as [|[|[|a]]]; try lia; cbn [Nat.leb];
+      rewrite !HM by lia; rewrite ?(curlcurl_K_sym _ _ _ 1 0), ?(curlcurl_K_sym _ _ _ 2 0), ?(curlcurl_K_sym _ _ _ 2 1); ring.
+  Qed.
+
+  Definition el_galerkin (el : elemR) (U : vecT R) (i : nat) : R :=
+    (if Nat.eqb (tri_get (mp el) 0) i then galerkin_local el U 0 else 0)
+    + (if Nat.eqb (tri_get (mp el) 1) i then galerkin_local el U 1 else 0)
+    + (if Nat.eqb (tri_get (mp el) 2) i then galerkin_local el U 2 else 0).
+
+  Lemma mloop_resid_is_galerkin els U i : Forall el_regular els ->
+    mloop_resid P res els U i = - lsum (fun el => el_galerkin el U i) els.
+  Proof.
+    intros H. unfold mloop_resid. induction els as [|el els IH]; cbn [lsum]; [lra|].
+    apply Forall_cons_iff in H. destruct H as [Hel H]. rewrite (IH H).
+    unfold el_resid, el_galerkin.
+    rewrite !(local_resid_is_galerkin el U) by (auto; lia).
+    destruct (Nat.eqb (tri_get (mp el) 0) i); destruct (Nat.eqb (tri_get (mp el) 1) i);
+      destruct (Nat.eqb (tri_get (mp el) 2) i); lra.
+  Qed.
+
+  (* the assembled rows ARE the Galerkin equations: after the element loop, row i of M U - b is the initial
+     row plus the sum over the elements around node i of their local Galerkin equations *)
+  Theorem static_rows_are_galerkin U els (M : matrixT R) (b : vecT R) :
+    mat_wf M -> length b = length M -> Forall (elem_okM (length M)) els -> Forall el_regular els ->
+    let s' := fold_left (melem_step RA P res) els (M, b) in
+    forall i, (i < length M)%nat ->
+      Ax (fst s') U i - vgetR (snd s') i = (Ax M U i - vgetR b i) + lsum (fun el => el_galerkin el U i) els.
+  Proof.
+    intros Hwf Hb Hok Hreg s' i Hi.
+    destruct (mloop_rows P res U els M b Hwf Hb Hok) as (_ & _ & _ & HR).
+    unfold s'. rewrite (HR i Hi), (mloop_resid_is_galerkin els U i Hreg). lra.
+  Qed.
+End Galerkin.
